@@ -86,7 +86,12 @@ def run(ctx):
                  "a": rng.choice(["'a", "'__b", "'b", "'r", "'state"]).replace("'__b", "'b"), "f": rng.sample(FIELD_NAMES[:22], 4), "v": rng.sample(VARIANT_NAMES, 4)}
         if names["T"].replace("r#", "") == names["X"].replace("r#", ""):
             names["T"] = "U"
+        if names["N"] == names["X"] or names["N"] == names["T"]:
+            names["N"] = "N"       # a const parameter named like a type in scope is the recorded E0747 finding (observed by its own program)
         cprogs.append(fam2.c20_prog("p_%04d" % i, rng, names=names))
+    import elayer as _E
+    cprogs.append(_E.Prog("p_kf_const_param_type_name", "#[derive_ex::derive_ex(Clone)]\npub struct X<const Option: usize>(pub [u8; Option]);\n\npub fn replay(_h: &str, _b: &[u8]) -> (bool, String) { (true, String::new()) }\n", [],
+                          {"describe": "const parameter named like a prelude type: #[derive_ex(Clone)] struct X<const Option: usize>([u8; Option]);"}))
     rejected = 0
     for ci in range(0, len(cprogs), 250):
         c = E.ECrate("C13", "s%02d" % (ci // 250), fam2.C20_SUPPORT, strict=True)
